@@ -276,8 +276,10 @@ def fam_closerace(rng, tier):
     for nkt in (1, 2):
         for kind in (0, 1, 2):
             for rx in (O_READ, O_RECV, O_READV):
-                thr = [[(O_CLOSE_RACE, 0, 0, 0), (rx, 101, 3, 0), (O_GETFL, 101, 0, 0), (O_WRITE_ALL, 101, 300000, 0)],
-                       [(O_SLEEP, 0, 60, 0), (O_WRITE, 201, 3, 0), (O_READ_ALL, 201, 300000, 0)]]
+                # the barrier (not a delay) orders thread 2's use of slot 201 after the close: no timing dependence
+                thr = [[(O_CLOSE_RACE, 0, 0, 0), (O_BARRIER, 0, 0, 2), (rx, 101, 3, 0), (O_GETFL, 101, 0, 0),
+                        (O_WRITE_ALL, 101, 300000, 0)],
+                       [(O_BARRIER, 0, 0, 2), (O_SLEEP, 0, 40, 0), (O_WRITE, 201, 3, 0), (O_READ_ALL, 201, 300000, 0)]]
                 res.append(Script("closerace", [kind], thr, nkt=nkt, timeout=3000))
         # the descriptor being closed has a blocked reader (woken with an error by the close): no reference run
     return res
